@@ -70,10 +70,29 @@ impl Variable {
     fn debug(&self, depth: u8) -> String {
         match_any! { self,
             Self::Int(value)
-            | Self::Float(value)
-            | Self::String(value) => format!("{value:?}"),
+            | Self::Float(value) => format!("{value:?}"),
+            Self::String(value) => Self::debug_string(value),
             _ => self.string(depth)
         }
+    }
+
+    /// `{:?}` of a string, except that NUL is written `\u{0}`: the `\0` of Rust's escaping
+    /// followed by a digit would be read back as an octal escape (`"\01"` is U+0001)
+    fn debug_string(value: &str) -> String {
+        let escaped = format!("{value:?}");
+        let mut result = String::with_capacity(escaped.len());
+        let mut chars = escaped.chars();
+        while let Some(c) = chars.next() {
+            match (c, if c == '\\' { chars.next() } else { None }) {
+                ('\\', Some('0')) => result.push_str("\\u{0}"),
+                ('\\', Some(next)) => {
+                    result.push('\\');
+                    result.push(next)
+                }
+                (c, _) => result.push(c),
+            }
+        }
+        result
     }
 
     pub fn of_type(var_type: &Type) -> Option<Self> {
